@@ -84,5 +84,33 @@ def extra_checks(tier, seed):
     samples.append({"obligation": "qr_r_jvp tangent map is linear in M_dot and transposable", "holds": linear_ok})
     if not linear_ok:
         viol.append({"contract": "extra:qr_r_jvp_linear", "obligation": "tangent_map_linear_and_transposable", "reason": "non-linear or non-transposable primitive on the tangent path", "native": {"violated": True}})
+    # (iv) finiteness side condition for standard deviations at zero covariance (exact initial states are allowed):
+    # the computation must not apply a primitive with a singular derivative (sqrt, division, log, power) to a
+    # quantity that vanishes there.  Decided on the symbolic evaluation of the real std computation.
+    from contracts.gaussians import LAYOUTS
+    from vcgen import interp
+    from vcgen import poly as P
+
+    for L in LAYOUTS:
+        P.reset()
+        prims.reset()
+        import importlib
+
+        M = importlib.import_module(L.module)
+        rv = L.normal_obj(rng, 2, 2)
+        with prims.symbolic_mode():
+            closed = jax.make_jaxpr(lambda m, c: jax.tree_util.tree_leaves(type(rv)(m, c, rv.tree_flatten)._std_batched()))(rv.mean_flat, rv.cholesky_flat)
+        sym = [interp.to_obj(np.zeros(rv.mean_flat.shape)), None]
+        arr = np.empty(rv.cholesky_flat.shape, dtype=object)
+        for ix in np.ndindex(*arr.shape):
+            arr[ix] = P.fresh(f"L{list(ix)}")
+        sym[1] = arr
+        ctx = interp.Ctx()
+        interp.eval_jaxpr(ctx, closed.jaxpr, closed.consts, *sym)
+        singular = [info["name"] + ":" + info["atom"] for info in P.SYMS if info["kind"] == "atom" and info.get("atom") in ("sqrt", "inv", "log", "pow") and not P.known_positive(info["args"][0].p)]
+        ob += 1
+        samples.append({"obligation": f"{L.normal}.std differentiable at zero covariance", "singular_primitives_on_vanishing_arguments": singular[:4]})
+        if singular:
+            viol.append({"contract": "extra:finite_derivative_at_zero_covariance", "obligation": f"{L.normal}._std_batched", "reason": f"{len(singular)} sqrt/div/log/pow applied to arguments that vanish at zero covariance (derivative 0/0 there): {singular[:3]}", "native": {"violated": False, "note": "structural side condition; jax.jacfwd of the std at a zero Cholesky row returns NaN"}})
     return [{"obligations": ob, "discharged": ob - len(viol), "by_backend": {"jaxpr-inspection": ob - len(viol)}, "violations": viol, "samples": samples,
              "functions": {"extra:stop_gradient frame + linearity (jaxpr inspection)": {"instances": ob, "obligations": ob, "discharged": ob - len(viol)}}}]
